@@ -186,8 +186,8 @@ func vxTwoRuns(k int, uni [][]types.Type) {
 
 func VX_C08_names_K2()          { vxTwoRuns(2, vxUniverse()) }
 func VX_C08_names_K3()          { vxTwoRuns(3, vxUniverse()) }
-func VX_C08_assignable_K2__KF_F1() { vxTwoRuns(2, vxUniverseAssignable()) }
-func VX_C08_assignable_K3__KF_F1() { vxTwoRuns(3, vxUniverseAssignable()) }
+func VX_C08_assignable_K2()     { vxTwoRuns(2, vxUniverseAssignable()) }
+func VX_C08_assignable_K3()     { vxTwoRuns(3, vxUniverseAssignable()) }
 
 // ---------- C01: name-table lemma ----------
 
